@@ -473,80 +473,199 @@ fn check_counters(ctx: &ModelCtx, rep: &Report, st: &mut Stats, apis: &[Api], h:
 }
 
 /// A large structured universe explored at table level only (no API
-/// replays): all k-tuples over the pool of strings over `alpha` with length
-/// `minlen..=maxlen`.
+/// replays). Two generators:
+///  * Tuples: all k-tuples over the pool of strings over `alpha` with length
+///    `minlen..=maxlen`;
+///  * Subs: for a word W, every subset of 1..=maxk of its distinct substrings,
+///    each chosen substring optionally extended by a fresh letter (all 2^k
+///    combinations), in forward and reverse order. These are the suffix- and
+///    prefix-nested shapes (inherited matches, multi-hop failure chains) that
+///    tuples over tiny alphabets reach only at sizes far beyond enumeration.
 #[derive(Clone)]
-pub struct Deep {
-    pub name: &'static str,
-    pub alpha: &'static [u8],
-    pub minlen: usize,
-    pub maxlen: usize,
-    pub k: usize,
-    pub ci: bool,
+pub enum Deep {
+    Tuples { name: &'static str, alpha: &'static [u8], minlen: usize, maxlen: usize, k: usize, ci: bool },
+    Subs { word: Vec<u8>, maxk: usize, ci: bool },
 }
 
+const EXT: [u8; 4] = [b'p', b'q', b'r', b's'];
+
 impl Deep {
-    pub fn pool(&self) -> Vec<Vec<u8>> {
-        universe::strings(self.alpha, self.maxlen).into_iter().filter(|s| s.len() >= self.minlen).collect()
+    pub fn name(&self) -> String {
+        match self {
+            Deep::Tuples { name, .. } => name.to_string(),
+            Deep::Subs { word, maxk, .. } => format!("subs({},{})", json::show(word), maxk),
+        }
     }
-    pub fn size(&self) -> usize {
-        self.pool().len().pow(self.k as u32)
+    pub fn ci(&self) -> bool {
+        match self {
+            Deep::Tuples { ci, .. } | Deep::Subs { ci, .. } => *ci,
+        }
     }
+    fn pool(&self) -> Vec<Vec<u8>> {
+        match self {
+            Deep::Tuples { alpha, minlen, maxlen, .. } => universe::strings(alpha, *maxlen).into_iter().filter(|s| s.len() >= *minlen).collect(),
+            Deep::Subs { word, .. } => {
+                let mut v: Vec<Vec<u8>> = vec![];
+                for a in 0..word.len() {
+                    for b in a + 1..=word.len() {
+                        let s = word[a..b].to_vec();
+                        if !v.contains(&s) {
+                            v.push(s);
+                        }
+                    }
+                }
+                v
+            }
+        }
+    }
+    /// number of work chunks
+    fn chunks(&self, pool: &[Vec<u8>]) -> usize {
+        match self {
+            Deep::Tuples { k, .. } => (pool.len().pow(*k as u32) + 2047) / 2048,
+            Deep::Subs { .. } => pool.len(), // chunk = subsets whose smallest element is the given one
+        }
+    }
+    /// number of lists (exact)
+    fn size(&self, pool: &[Vec<u8>]) -> usize {
+        match self {
+            Deep::Tuples { k, .. } => pool.len().pow(*k as u32),
+            Deep::Subs { maxk, .. } => {
+                let n = pool.len();
+                let mut total = 0usize;
+                let mut c = 1usize; // C(n, k)
+                for k in 1..=*maxk.min(&n) {
+                    c = c * (n - k + 1) / k;
+                    total += c * (1 << k) * 2;
+                }
+                total
+            }
+        }
+    }
+    fn for_each(&self, pool: &[Vec<u8>], chunk: usize, f: &mut dyn FnMut(&Pats)) {
+        match self {
+            Deep::Tuples { k, .. } => {
+                let pn = pool.len();
+                let n = pn.pow(*k as u32);
+                let lo = chunk * 2048;
+                let hi = (lo + 2048).min(n);
+                let mut pats: Pats = Vec::with_capacity(*k);
+                for idx in lo..hi {
+                    pats.clear();
+                    let mut x = idx;
+                    for _ in 0..*k {
+                        pats.push(pool[x % pn].clone());
+                        x /= pn;
+                    }
+                    f(&pats);
+                }
+            }
+            Deep::Subs { maxk, .. } => {
+                // subsets (as increasing index vectors) whose first element is `chunk`
+                let n = pool.len();
+                let mut idx: Vec<usize> = vec![chunk];
+                let mut pats: Pats = vec![];
+                loop {
+                    let k = idx.len();
+                    for flags in 0..(1usize << k) {
+                        pats.clear();
+                        for (j, &i) in idx.iter().enumerate() {
+                            let mut p = pool[i].clone();
+                            if flags >> j & 1 == 1 {
+                                p.push(EXT[j]);
+                            }
+                            pats.push(p);
+                        }
+                        f(&pats);
+                        pats.reverse();
+                        f(&pats);
+                    }
+                    // next subset with the same first element (lexicographic, size <= maxk)
+                    if k < *maxk && idx[k - 1] + 1 < n {
+                        let nx = idx[k - 1] + 1;
+                        idx.push(nx);
+                    } else {
+                        loop {
+                            if idx.len() == 1 {
+                                return;
+                            }
+                            let last = idx.len() - 1;
+                            if idx[last] + 1 < n {
+                                idx[last] += 1;
+                                break;
+                            }
+                            idx.pop();
+                        }
+                    }
+                }
+            }
+        }
+    }
+}
+
+/// All restricted-growth words of the given length ("abab", "abca", ...: one
+/// representative per equality pattern of positions), each also under the
+/// reversed alphabet (byte order matters to the trie construction).
+pub fn rg_words(len: usize) -> Vec<Vec<u8>> {
+    let mut out: Vec<Vec<u8>> = vec![];
+    fn rec(cur: &mut Vec<u8>, maxc: u8, len: usize, out: &mut Vec<Vec<u8>>) {
+        if cur.len() == len {
+            out.push(cur.clone());
+            return;
+        }
+        for c in 0..=maxc {
+            cur.push(b'a' + c);
+            rec(cur, if c == maxc { maxc + 1 } else { maxc }, len, out);
+            cur.pop();
+        }
+    }
+    rec(&mut vec![], 0, len, &mut out);
+    let rev: Vec<Vec<u8>> = out.iter().map(|w| w.iter().map(|&c| b'a' + b'z' - c).collect()).collect();
+    out.extend(rev);
+    out
 }
 
 /// Table-level exploration of every list of the deep universes on a reduced
 /// set of representations (their equivalence with all the others is C04's
 /// business, which runs its joint product on the same universes).
 pub fn run_deep(rep: &Report, deeps: &[Deep], kinds: &[Kind], explores: &[Explore], reps: &[Cfg]) {
-    const CHUNK: usize = 2048;
     struct W {
         d: usize,
-        lo: usize,
-        hi: usize,
+        chunk: usize,
     }
     let pools: Vec<Vec<Vec<u8>>> = deeps.iter().map(|d| d.pool()).collect();
     let mut items = vec![];
     for (di, d) in deeps.iter().enumerate() {
-        let n = d.size();
-        let mut lo = 0;
-        while lo < n {
-            items.push(W { d: di, lo, hi: (lo + CHUNK).min(n) });
-            lo += CHUNK;
+        for chunk in 0..d.chunks(&pools[di]) {
+            items.push(W { d: di, chunk });
         }
-        rep.count("deep_lists_planned", n as u64);
+        rep.count("deep_lists_planned", d.size(&pools[di]) as u64);
     }
-    let desc = |i: usize| format!("deep universe {} lists {}..{}", deeps[items[i].d].name, items[i].lo, items[i].hi);
+    let desc = |i: usize| format!("deep universe {} chunk {}", deeps[items[i].d].name(), items[i].chunk);
+    let joint_only = explores.iter().all(|e| matches!(e, Explore::Joint { .. }));
     crate::report::par_for_desc(rep, items.len(), &desc, |ix, st| {
         let w = &items[ix];
         let d = &deeps[w.d];
-        let pool = &pools[w.d];
-        let pn = pool.len();
-        for idx in w.lo..w.hi {
-            let mut pats: Vec<Vec<u8>> = Vec::with_capacity(d.k);
-            let mut x = idx;
-            for _ in 0..d.k {
-                pats.push(pool[x % pn].clone());
-                x /= pn;
-            }
+        let ci = d.ci();
+        let mut n_in_chunk = 0u64;
+        d.for_each(&pools[w.d], w.chunk, &mut |pats: &Pats| {
+            n_in_chunk += 1;
             for &kind in kinds {
-                let def = ModelDef { name: format!("{}#{}", d.name, idx), pats: pats.clone(), kind, ci: d.ci };
-                let m = Model::new(pats.clone(), kind, d.ci);
-                let mut built: Vec<(Cfg, Searcher)> = vec![];
-                // all requested representations share one noncontiguous NFA build where possible
-                for &c in reps {
-                    match aut::build(&pats, kind, d.ci, c) {
-                        Ok(sr) => built.push((c, sr)),
-                        Err(e) => {
-                            rep.violation(Violation {
-                                property: rep.property.clone(),
-                                what: "build-failed".into(),
-                                case: J::obj().set("engine", J::s("table")).set("patterns", pats_j(&pats)).set("kind", J::s(kind.name())).set("ci", J::Bool(d.ci)).set("cfg", J::s(c.name())).set("explore", J::s("contract")),
-                                detail: format!("{} {} {}: {}", pats_show(&pats), kind.name(), c.name(), e),
-                                tags: vec![],
-                            });
-                        }
+                let mk_def = || ModelDef { name: d.name(), pats: pats.clone(), kind, ci };
+                let m = Model::new(pats.clone(), kind, ci);
+                // one noncontiguous NFA, the other representations are built from it
+                let built: Vec<(Cfg, Searcher)> = match build_from_one(pats, kind, ci, reps) {
+                    Ok(b) => b,
+                    Err(e) => {
+                        rep.violation(Violation {
+                            property: rep.property.clone(),
+                            what: "build-failed".into(),
+                            case: J::obj().set("engine", J::s("table")).set("patterns", pats_j(pats)).set("kind", J::s(kind.name())).set("ci", J::Bool(ci)).set("cfg", J::s("nnfa:dd=1:pre=0")).set("explore", J::s("contract")),
+                            detail: format!("{} {}: {}", pats_show(pats), kind.name(), e),
+                            tags: vec![],
+                        });
+                        continue;
                     }
-                }
+                };
                 st.add("deep_models", 1);
                 for ex in explores {
                     match ex {
@@ -560,20 +679,26 @@ pub fn run_deep(rep: &Report, deeps: &[Deep], kinds: &[Kind], explores: &[Explor
                                 Err(p) => Finding { what: "panic", witness: vec![], anchored: *anchored, detail: format!("panic: {}", aut::panic_msg(&p)) },
                             };
                             if f.what == "cap" {
-                                rep.machinery(format!("cap on joint {}", pats_show(&pats)));
+                                rep.machinery(format!("cap on joint {}", pats_show(pats)));
                             } else {
-                                rep.violation(finding_violation(rep, &def, &format!("jointdeep:{}", names.join("+")), ex, &f));
+                                rep.violation(finding_violation(rep, &mk_def(), &format!("jointdeep:{}", names.join("+")), ex, &f));
                             }
                         }
                         Explore::Walk { .. } if kind != Kind::Std => {}
                         Explore::Find { earliest: true, .. } if kind == Kind::Std => {}
                         _ => {
                             for (cfg, sr) in &built {
+                                // the noncontiguous NFA is only part of the joint
+                                // product here (its leftmost post-match states are
+                                // two orders of magnitude slower to step)
+                                if !joint_only && matches!(cfg.rep, Rep::N { .. }) && !matches!(ex, Explore::Work | Explore::Contract) {
+                                    continue;
+                                }
                                 if let Err(f) = run_explore(cfg, sr, &m, ex, st, None) {
                                     if f.what == "cap" || f.what == "oracle-self-disagreement" {
-                                        rep.machinery(format!("{} on {} {} {}", f.what, pats_show(&pats), cfg.name(), ex.name()));
+                                        rep.machinery(format!("{} on {} {} {}", f.what, pats_show(pats), cfg.name(), ex.name()));
                                     } else {
-                                        rep.violation(finding_violation(rep, &def, &cfg.name(), ex, &f));
+                                        rep.violation(finding_violation(rep, &mk_def(), &cfg.name(), ex, &f));
                                     }
                                 }
                             }
@@ -581,8 +706,45 @@ pub fn run_deep(rep: &Report, deeps: &[Deep], kinds: &[Kind], explores: &[Explor
                     }
                 }
             }
+        });
+        st.add("deep_lists", n_in_chunk);
+        if rep.nsamples() < 6 && ix % 97 == 13 {
+            let mut ex: Option<Pats> = None;
+            d.for_each(&pools[w.d], w.chunk, &mut |p: &Pats| {
+                if ex.is_none() && p.len() >= 3 {
+                    ex = Some(p.clone());
+                }
+            });
+            if let Some(p) = ex {
+                rep.sample(J::obj().set("deep_universe", J::s(d.name())).set("example_list", J::s(pats_show(&p))).set("representations", J::Arr(reps.iter().map(|c| J::s(c.name())).collect())).set("level", J::s("table exploration only (all 256 bytes, closed product); no API replay")));
+            }
         }
     });
+}
+
+/// Build the requested low-level representations from ONE noncontiguous NFA.
+fn build_from_one(pats: &Pats, kind: Kind, ci: bool, reps: &[Cfg]) -> Result<Vec<(Cfg, Searcher)>, String> {
+    use aho_corasick::{dfa, nfa};
+    let r = std::panic::catch_unwind(std::panic::AssertUnwindSafe(|| -> Result<Vec<(Cfg, Searcher)>, String> {
+        let dd = reps.iter().find_map(|c| if let Rep::N { dd } = c.rep { Some(dd) } else { None }).unwrap_or(1);
+        let nn = aut::build_nnfa(pats, kind, ci, false, dd)?;
+        let mut out = vec![];
+        for &c in reps {
+            match c.rep {
+                Rep::C { dd, bc } => out.push((c, Searcher::C(nfa::contiguous::Builder::new().dense_depth(dd).byte_classes(bc).build_from_noncontiguous(&nn).map_err(|e| e.to_string())?))),
+                Rep::D { sk, bc } => out.push((c, Searcher::D(dfa::Builder::new().start_kind(sk.ac()).byte_classes(bc).build_from_noncontiguous(&nn).map_err(|e| e.to_string())?))),
+                _ => {}
+            }
+        }
+        if let Some(&c) = reps.iter().find(|c| matches!(c.rep, Rep::N { .. })) {
+            out.insert(0, (c, Searcher::N(nn)));
+        }
+        Ok(out)
+    }));
+    match r {
+        Ok(x) => x,
+        Err(p) => Err(format!("PANIC in build: {}", aut::panic_msg(&p))),
+    }
 }
 
 /// Replay of a "table" case.
@@ -688,3 +850,4 @@ pub fn replay_mode(case: &J) -> i32 {
         0
     }
 }
+
